@@ -114,7 +114,8 @@ SymInt.__floordiv__ = lambda s, o: SymInt(S(s.t / o)) if isinstance(o, int) and 
 
 def sx_len(x):
     if isinstance(x, SymBytes): return SymInt(x.length())
-    return builtins.len(x)
+    if isinstance(x, (list, tuple, dict, str, bytes, bytearray, set, frozenset, range)): return builtins.len(x)
+    return type(x).__len__(x)
 def sx_int(x):
     if isinstance(x, SymInt): return x
     if isinstance(x, SymRat): return SymInt(S(x.num / x.den)) if x.den != 1 else SymInt(x.num)
@@ -160,3 +161,17 @@ def load_pkg(names, root='/repo'):
         sys.modules['sxauditok.' + n] = m; setattr(pkg, n, m)
         exec(compile(tree, path, 'exec'), m.__dict__)
     return pkg
+
+def lia_normalise(e, segs):
+    """merge neighbouring segments of the same base when the path condition entails hi == next.lo"""
+    out = []
+    for g in segs:
+        if out and g[0] == 'b' and out[-1][0] == 'b' and out[-1][1] is g[1] and e.check(out[-1][3] != g[2]) == z3.unsat:
+            out[-1] = ('b', g[1], out[-1][2], g[3])
+        else: out.append(g)
+    return out
+def lia_equal_slice(e, val, base, lo, hi):
+    """does PC entail  val == base[lo:hi]  (hi>lo) ?  returns 'unsat' (entailed) / 'sat' / 'unknown' like a refutation query"""
+    segs = lia_normalise(e, val.segs)
+    if len(segs) != 1 or segs[0][0] != 'b' or segs[0][1] is not base: return 'structural'
+    return str(e.check(z3.Not(z3.And(segs[0][2] == lo, segs[0][3] == hi))))
